@@ -200,7 +200,15 @@ pub const WATCHDOG_SECS: u64 = 10;
 pub fn run_case<P: Prop>(prop: &P, case: &P::Case, disk: &str, want_events: bool) -> RunOut {
     clean_dir(disk);
     let sp = prop.sim_params(case);
-    let io = IoSched::new(sp.faults, sp.chunk_r, sp.chunk_w);
+    let mut io = IoSched::new(sp.faults, sp.chunk_r, sp.chunk_w);
+    // the first record of every event log is the digest of the explicit case (workload + schedule)
+    {
+        let mut h = crate::rng::Fnv::new();
+        h.bytes(serde_json::to_string(case).unwrap_or_default().as_bytes());
+        io.op = u32::MAX;
+        io.api("case", &format!("{:016x}", h.0));
+        io.op = 0;
+    }
     let mut ctx = Box::new(SimCtx::new(io, sp.hash_seed, sp.clock_s, disk));
     let mut x = Exec { disk: disk.to_string(), counters: BTreeMap::new(), violations: vec![], nontrivial: false, notes: vec![] };
     let (tx, rx) = std::sync::mpsc::channel::<(Exec, Box<SimCtx>, Option<String>)>();
